@@ -30,7 +30,8 @@ LEVEL_TEXT = ("Held on every generated problem of the run: methods {exacteig, cu
               "operator kinds {dense-wrapped, matrix-free mv-only, matrix-free with fullmatrix, two-parameter diag+low-rank} x "
               "neig<n and neig=n x lowest/uppest/uppermost x gaps {1, 0.1} and exact degeneracies (complete groups inside the "
               "selection, also batches mixing degenerate and split elements) x 7 batch patterns of A and M x {float64, complex128} x "
-              "backward solver {default, exactsolve, cg, bicgstab} x first and second order; svd over tall/wide/square operators "
+              "backward solver {default, exactsolve, cg, bicgstab} x first and second order (second order through a generic nonlinear loss, through "
+              "losses linear in the eigen/singular values only, and through least-squares losses evaluated at zero residual); svd over tall/wide/square operators "
               "(dense, mv+rmv, all products, mv only). Bounds: n<=8 (n<=24 quick / 40 thorough for davidson), cond(M)<=6, "
               "|eigenvalues|<~8, singular values in [0.5, ~8].")
 LEVEL_NOTE = ("Trusts torch.linalg.eigh/svd/cholesky and their autograd formulas away from degeneracy, and five-point central "
@@ -42,6 +43,11 @@ RULE = ("seeded sampling over group {eig, eigdeg, svd, svddeg} x method x M x op
         "the reference gradient (or finite-difference derivative) of every compared leaf is non-zero, the backward path promised by "
         "the method was observed by the spies (implicit: >=1 shifted backward solve from symeig_torchfcn.backward; dense: "
         "degen_symeig.backward ran) and, for degenerate cases on the implicit path, the backward built a degeneracy map")
+RULE += ('; second-order loss classes (descriptor key lossclass, groups eig and svd, separated spectra): linear = a linear functional of the eigen / '
+         'singular values only (weights ones / gap / fixed / random: the cotangents entering the implicit backward are constants without a graph), '
+         'stationary = 0.5*||q(e, X) - q.detach()||^2 (every cotangent exactly zero at the point), stat_evec / stat_eval = only the eigenvector / '
+         'only the eigenvalue part stationary; a Hessian-vector product by double backward is compared with the same loss on torch.linalg.eigh / svd; '
+         'non-trivial for class stationary = the reference Hessian-vector product is non-zero')
 RULE += ('; group extra (vf/c06_extra.py): matrix-free A (3 tensors) and M (2 tensors) with requires-grad masks, one pair of operator objects re-assigned between two decompositions with one backward, one of the operators without tensor parameters')
 MIN_NONTRIVIAL = {"quick": 2500, "thorough": 25000}
 ASSUMPTIONS = [
@@ -54,6 +60,10 @@ ASSUMPTIONS = [
     "losses: sum of each complete group's eigenvalues, <W, X_g X_g^H>, a quartic in the projector; for separated spectra also "
     "<W2, X_g f(E_g) X_g^H>; svd: sum of s_g, <R, U_g S_g V_g^H>, a quartic in it; for separated values also U_g U_g^H, V_g V_g^H, "
     "U_g V_g^H. Loss classes 'spectral' (eigdeg) and 'proj' (svddeg) add the eigenvalue-weighted / one-sided terms at exact degeneracy",
+    "second-order loss classes: linear losses sum_g w_g e_g (w = 1 | last-minus-first | 2/(1+g) | random), stationary losses 0.5*||q - q.detach()||^2 "
+    "with q = (c_g e_g, X_g X_g^H, <W, X_g X_g^H>) (svd: c_g s_g, U_g S_g V_g^H, U_g V_g^H, U_g U_g^H, V_g V_g^H), mixed classes with the other part "
+    "c e + e^2/4 resp. <W, P> + quartic; same tolerances as the generic second-order comparison (largest error/tolerance ratio seen 9e-7); a first-order "
+    "gradient that comes back without a graph counts as a zero second derivative",
     "davidson: float64 only (the method transposes without conjugation), min_eps=1e-12, max_niter=1000",
     "iterative backward solvers are given rtol=1e-11, atol=1e-13, max_niter=40n+60; a backward that emits a ConvergenceWarning is "
     "not compared (it told the user)",
@@ -64,10 +74,18 @@ ASSUMPTIONS = [
 ]
 BUDGET = {"quick": {"worker_timeout": 900, "case_timeout": 120}, "thorough": {"worker_timeout": 3300, "case_timeout": 300}}
 REQUIRED_COUNTERS = {
-    "quick": {"extra_first_order_compared": 100, "extra_first_M_param_frozen": 15, "extra_noparam_operator_compared": 15, "extra_repeated_backward_compared": 20, "implicit_backward_solves": 1500, "dense_backward_calls": 300, "degeneracy_maps_seen": 400, "bck_exactsolve": 800,
+    "quick": {"lossclass_linear_second_compared": 120, "lossclass_linear_svd_second_compared": 30, "lossclass_stationary_second_compared": 60,
+              "lossclass_stationary_svd_second_compared": 15, "lossclass_stat_evec_second_compared": 60, "lossclass_stat_evec_svd_second_compared": 12,
+              "lossclass_stat_eval_second_compared": 60, "implicit_backward_constant_cotangents": 70, "implicit_backward_zero_evec_cotangent": 190,
+              "implicit_backward_zero_eval_cotangent": 80, "zero_rhs_backward_solves": 190, "zero_rhs_direct_backward_solves": 100,
+              "extra_first_order_compared": 100, "extra_first_M_param_frozen": 15, "extra_noparam_operator_compared": 15, "extra_repeated_backward_compared": 20, "implicit_backward_solves": 1500, "dense_backward_calls": 300, "degeneracy_maps_seen": 400, "bck_exactsolve": 800,
               "bck_cg": 500, "bck_bicgstab": 400, "davidson_calls": 400, "first_order_compared": 700, "second_order_compared": 500,
               "fd_directions_compared": 1500, "svd_cases_compared": 350, "with_M_compared": 400, "degenerate_level_at_zero": 150},
-    "thorough": {"extra_first_order_compared": 1000, "extra_first_M_param_frozen": 150, "extra_noparam_operator_compared": 150, "extra_repeated_backward_compared": 200, "implicit_backward_solves": 15000, "dense_backward_calls": 3000, "degeneracy_maps_seen": 4000, "bck_exactsolve": 8000,
+    "thorough": {"lossclass_linear_second_compared": 1200, "lossclass_linear_svd_second_compared": 300, "lossclass_stationary_second_compared": 600,
+                 "lossclass_stationary_svd_second_compared": 150, "lossclass_stat_evec_second_compared": 600, "lossclass_stat_evec_svd_second_compared": 120,
+                 "lossclass_stat_eval_second_compared": 600, "implicit_backward_constant_cotangents": 700, "implicit_backward_zero_evec_cotangent": 1900,
+                 "implicit_backward_zero_eval_cotangent": 800, "zero_rhs_backward_solves": 1900, "zero_rhs_direct_backward_solves": 1000,
+                 "extra_first_order_compared": 1000, "extra_first_M_param_frozen": 150, "extra_noparam_operator_compared": 150, "extra_repeated_backward_compared": 200, "implicit_backward_solves": 15000, "dense_backward_calls": 3000, "degeneracy_maps_seen": 4000, "bck_exactsolve": 8000,
                  "bck_cg": 5000, "bck_bicgstab": 4000, "davidson_calls": 4000, "first_order_compared": 7000,
                  "second_order_compared": 5000, "fd_directions_compared": 15000, "svd_cases_compared": 3500, "with_M_compared": 4000,
                  "degenerate_level_at_zero": 1500},
@@ -77,6 +95,10 @@ METHODS = ["exacteig", "custom_exacteig", "davidson", "custom_exacteig", "davids
 BATCHES = [((), ()), ((), ()), ((2,), ()), ((), (2,)), ((2,), (2,)), ((2, 1), (3,)), ((3,), (2, 1))]
 BCK = ["default", "default", "exactsolve", "cg", "bicgstab"]
 FD_H = 1e-4
+# second-order loss classes (descriptor key "lossclass"; absent = the generic nonlinear loss of _eig_loss / _svd_loss)
+METHODS2 = ["custom_exacteig", "davidson", "callable", "custom_exacteig", "davidson", "exacteig"]
+LOSSCLASSES = ["linear", "stationary", "stat_evec", "linear", "stat_eval"]
+LINKINDS = ["ones", "ones", "random", "gap", "fixed"]
 
 
 # ------------------------------------------------------------------------------------------------ case lists
@@ -169,6 +191,44 @@ def cases(seed, tier):
         d["batch"] = rng.choice([0, 0, 2])
         d["bck"] = rng.choice(BCK)
         d["loss"] = "proj" if rng.random() < 0.2 else "triplet"
+        out.append(d)
+    # ---- second-order loss classes (separated spectra): losses with CONSTANT cotangents (linear in the eigen/singular values only) and
+    #      STATIONARY losses (0.5*||q - q.detach()||^2: cotangents that are exactly zero at the point of evaluation but carry a graph)
+    NH = {"quick": (420, 160), "thorough": (4200, 1600)}[tier]
+    for i in range(NH[0]):
+        rng = random.Random(sub_seed(seed, "c06h", i))
+        d = {"group": "eig", "seed": sub_seed(seed, "c06hs", i)}
+        d["method"] = METHODS2[i % len(METHODS2)]
+        d["lossclass"] = LOSSCLASSES[(i // len(METHODS2)) % len(LOSSCLASSES)]
+        d["M"] = bool((i // (len(METHODS2) * len(LOSSCLASSES))) % 2)
+        d["dtype"] = "complex128" if (d["method"] != "davidson" and rng.random() < 0.4) else "float64"
+        d["n"] = rng.choice([2, 3, 4, 5, 6, 8])
+        d["opkind"] = rng.choice(["dense", "mv", "full", "lowrank"])
+        d["mkind"] = rng.choice(["dense", "mv", "full"])
+        d["neig"] = rng.choice([None, d["n"]] + list(range(1, d["n"])) * 2)
+        d["mode"] = rng.choice(["lowest", "uppest", "uppermost"])
+        d["gap"] = rng.choice([1.0, 0.1])
+        d["batch"] = rng.randrange(len(BATCHES))
+        d["bck"] = rng.choice(BCK)
+        d["lin"] = rng.choice(LINKINDS)
+        d["order2"] = True
+        out.append(d)
+    for i in range(NH[1]):
+        rng = random.Random(sub_seed(seed, "c06g", i))
+        d = {"group": "svd", "seed": sub_seed(seed, "c06gs", i)}
+        d["method"] = METHODS2[i % len(METHODS2)]
+        d["lossclass"] = LOSSCLASSES[(i // len(METHODS2)) % len(LOSSCLASSES)]
+        d["dtype"] = "complex128" if (d["method"] != "davidson" and rng.random() < 0.4) else "float64"
+        d["m"], d["n"] = rng.choice([(3, 3), (5, 3), (3, 5), (6, 4), (2, 6), (4, 4), (7, 2)])
+        d["opkind"] = rng.choice(["dense", "mv_rmv", "all", "mv"])
+        mn = min(d["m"], d["n"])
+        d["k"] = rng.choice([None, mn] + list(range(1, mn)) * 2)
+        d["mode"] = rng.choice(["lowest", "uppest", "uppermost"])
+        d["gap"] = rng.choice([1.0, 0.1])
+        d["batch"] = rng.choice([0, 0, 2, 5])
+        d["bck"] = rng.choice(BCK)
+        d["lin"] = rng.choice(LINKINDS)
+        d["order2"] = True
         out.append(d)
     from vf import c06_extra
     out.extend(c06_extra.cases(seed, tier))
@@ -323,6 +383,82 @@ def _svd_loss(U, S, Vh, groups, cot, proj=True):
     return tot
 
 
+def _lin_weight(kind, gi, ngroups, c):
+    """weights of a loss that is LINEAR in the (sums of the groups') eigenvalues / singular values only"""
+    if kind == "ones":          # sum of the k requested values (band energy, Ky-Fan / nuclear norm)
+        return 1.0
+    if kind == "gap":           # last minus first of the selection (a gap); a single value when k = 1
+        if ngroups == 1:
+            return 1.0
+        return 1.0 if gi == ngroups - 1 else (-1.0 if gi == 0 else 0.0)
+    if kind == "fixed":         # a fixed linear combination (occupation numbers)
+        return 2.0 / (1.0 + gi)
+    return c["c"]               # random weights per group and batch element
+
+
+def _abs2(z):
+    return z.real ** 2 + z.imag ** 2 if z.is_complex() else z ** 2
+
+
+def _stat(q):
+    """0.5*||q - q.detach()||^2: value zero, first derivative w.r.t. q EXACTLY zero (a tensor of zeros that carries a graph),
+    second derivative the identity (Gauss-Newton / synthetic-data fit evaluated at its own optimum)"""
+    return 0.5 * _abs2(q - q.detach()).sum()
+
+
+def _eig_loss2(e, X, groups, cot, lc, lin):
+    """second-order loss classes, separated spectra:
+    linear     - sum_g w_g e_g: the cotangents entering the backward are constants (no graph), the eigenvector cotangent is zero;
+    stationary - 0.5||q(e, X) - const||^2 with const = q at the same point, q = (c_g e_g, X_g X_g^H, <W, X_g X_g^H>);
+    stat_evec  - eigenvector part stationary (exactly zero cotangent), eigenvalue part c e + e^2/4 (non-zero cotangent);
+    stat_eval  - eigenvalue part stationary, eigenvector part <W, P> + quartic (non-zero cotangent)"""
+    tot = 0.0
+    for gi, (g, c) in enumerate(zip(groups, cot)):
+        eg = e[..., g].sum(-1)
+        if lc == "linear":
+            tot = tot + (_lin_weight(lin, gi, len(groups), c) * eg).sum()
+            continue
+        Xg = X[..., g]
+        P = torch.matmul(Xg, _H(Xg))
+        if lc in ("stationary", "stat_eval"):
+            tot = tot + _stat(c["c"] * eg)
+        else:
+            tot = tot + (c["c"] * eg).sum() + 0.25 * (eg * eg).sum()
+        if lc in ("stationary", "stat_evec"):
+            tot = tot + _stat(P) + _stat((c["W"] * P).sum((-2, -1)).real)
+        else:
+            tot = tot + (c["W"] * P).sum().real + 0.5 * (c["Q"] * _abs2(P)).sum()
+    return tot
+
+
+def _svd_loss2(U, S, Vh, groups, cot, lc, lin):
+    """the same classes for singular triplets: values s_g, vector quantities U_g V_g^H, U_g U_g^H, V_g V_g^H (no dependence on s),
+    and for 'stationary' also the rank-one term U_g S_g V_g^H"""
+    tot = 0.0
+    for gi, (g, c) in enumerate(zip(groups, cot)):
+        Sg = S[..., g]
+        sg = Sg.sum(-1)
+        if lc == "linear":
+            tot = tot + (_lin_weight(lin, gi, len(groups), c) * sg).sum()
+            continue
+        Ug, Vhg = U[..., g], Vh[..., g, :]
+        K = torch.matmul(Ug, Vhg)
+        PU = torch.matmul(Ug, _H(Ug))
+        PV = torch.matmul(_H(Vhg), Vhg)
+        if lc in ("stationary", "stat_eval"):
+            tot = tot + _stat(c["c"] * sg)
+        else:
+            tot = tot + (c["c"] * sg).sum() + 0.25 * (sg * sg).sum()
+        if lc == "stationary":
+            T = torch.matmul(Ug * Sg.unsqueeze(-2).to(Ug.dtype), Vhg)
+            tot = tot + _stat(T) + _stat(K)
+        elif lc == "stat_evec":
+            tot = tot + _stat(K) + _stat(PU) + _stat(PV)
+        else:
+            tot = tot + (c["W"] * PU).sum().real + (c["W2"] * PV).sum().real + 0.5 * (c["Q2"] * _abs2(K)).sum()
+    return tot
+
+
 def _inner(g, d):
     """directional derivative of a real loss with torch's gradient convention: Re sum conj(g) d"""
     return float((g.conj() * d).sum().real)
@@ -338,7 +474,8 @@ class _Spies:
     def __init__(self, obs):
         self.obs = obs
         self.saved = []
-        self.n = {"solve": 0, "degmap": 0, "dense_bwd": 0, "exactsolve": 0, "cg": 0, "bicgstab": 0, "davidson": 0, "ortho_D": 0}
+        self.n = {"solve": 0, "degmap": 0, "dense_bwd": 0, "exactsolve": 0, "cg": 0, "bicgstab": 0, "davidson": 0, "ortho_D": 0,
+                  "zero_rhs": 0, "zero_rhs_direct": 0, "bwd_graph": 0, "cot_const": 0, "cot_evec_zero": 0, "cot_eval_zero": 0}
 
     def _patch(self, holder, name, new):
         self.saved.append((holder, name, holder.__dict__[name] if isinstance(holder, type) else getattr(holder, name)))
@@ -361,7 +498,38 @@ class _Spies:
             w.__wrapped__ = fn
             return w
 
-        self._patch(symmod, "solve", wrap(symmod.solve, "solve"))
+        orig_solve = symmod.solve
+
+        def solve_w(A, B, *a, **k):
+            # the shifted backward solve of symeig_torchfcn.backward; inside a differentiable (create_graph) pass an exactly zero
+            # right-hand side is recorded together with the solver that received it
+            n["solve"] += 1
+            zero = torch.is_grad_enabled() and isinstance(B, torch.Tensor) and bool((B == 0).all())
+            before = n["exactsolve"]
+            r = orig_solve(A, B, *a, **k)
+            if zero:
+                n["zero_rhs"] += 1
+                if n["exactsolve"] > before:
+                    n["zero_rhs_direct"] += 1
+            return r
+        solve_w.__wrapped__ = orig_solve
+        self._patch(symmod, "solve", solve_w)
+        orig_ibwd = symmod.symeig_torchfcn.__dict__["backward"]
+        ifn = orig_ibwd.__func__ if isinstance(orig_ibwd, staticmethod) else orig_ibwd
+
+        def ibwd(ctx, grad_evals, grad_evecs):
+            # what the implicit backward receives inside a differentiable pass: constant cotangents (no graph), exactly zero ones
+            if torch.is_grad_enabled() and isinstance(grad_evals, torch.Tensor) and isinstance(grad_evecs, torch.Tensor):
+                n["bwd_graph"] += 1
+                if not (grad_evals.requires_grad or grad_evecs.requires_grad):
+                    n["cot_const"] += 1
+                if bool((grad_evecs == 0).all()):
+                    n["cot_evec_zero"] += 1
+                if bool((grad_evals == 0).all()):
+                    n["cot_eval_zero"] += 1
+            return ifn(ctx, grad_evals, grad_evecs)
+        ibwd.__wrapped__ = ifn
+        self._patch(symmod.symeig_torchfcn, "backward", staticmethod(ibwd))
 
         def post_degen(r):
             if r[1]:
@@ -388,6 +556,11 @@ class _Spies:
         o.count("bck_cg", n["cg"])
         o.count("bck_bicgstab", n["bicgstab"])
         o.count("davidson_calls", n["davidson"])
+        o.count("implicit_backward_constant_cotangents", n["cot_const"])
+        o.count("implicit_backward_zero_evec_cotangent", n["cot_evec_zero"])
+        o.count("implicit_backward_zero_eval_cotangent", n["cot_eval_zero"])
+        o.count("zero_rhs_backward_solves", n["zero_rhs"])
+        o.count("zero_rhs_direct_backward_solves", n["zero_rhs_direct"])
         return False
 
 
@@ -538,6 +711,8 @@ def _mech(desc, what):
     if desc["group"] in ("eigdeg", "svddeg"):
         # "_full": one repeated value fills the whole space (A = e M, or A^H A = s^2 I): A - e M is the zero matrix
         cfg += ":" + desc.get("loss", "-") + ("_full" if len(desc["mult"]) == 1 else "")
+    if desc.get("lossclass"):
+        cfg += ":" + desc["lossclass"]
     return "%s:%s:%s" % (desc["group"], what, cfg)
 
 
@@ -580,6 +755,14 @@ def _run_eig(desc, obs):
     bck = _bck_options(desc["bck"], n)
     counter = {}
     spectral = (not degen) or desc.get("loss") == "spectral"
+    lc = desc.get("lossclass")
+    if lc and degen:
+        raise HarnessBug("loss classes are generated for separated spectra only")
+
+    def lossfn(e_, X_):
+        if lc:
+            return _eig_loss2(e_, X_, groups, cot, lc, desc["lin"])
+        return _eig_loss(e_, X_, groups, cot, spectral)
 
     def xi_forward():
         A, M = dense(leaves)
@@ -610,7 +793,7 @@ def _run_eig(desc, obs):
                 obs.check(False, _mech(desc, "shape"), "symeig returned shapes %s %s, expected %s" % (tuple(e.shape), tuple(X.shape), want))
                 obs.nontrivial = True
                 return
-            loss = _eig_loss(e, X, groups, cot, spectral)
+            loss = lossfn(e, X)
             g1 = torch.autograd.grad(loss, lv, create_graph=bool(desc.get("order2")), allow_unused=True)
         except Exception as ex:          # the property says these gradients exist
             if isinstance(ex, HarnessBug):
@@ -654,7 +837,7 @@ def _run_eig(desc, obs):
         if withM:
             obs.count("with_M_compared")
         if not degen:
-            lossr = _eig_loss(er, Xr, groups, cot, spectral)
+            lossr = lossfn(er, Xr)
             r1 = torch.autograd.grad(lossr, lv, create_graph=bool(desc.get("order2")))
             worst, nz = 0.0, True
             for nm, g, r in zip(names, g1, r1):
@@ -666,13 +849,17 @@ def _run_eig(desc, obs):
                           n=n, k=k, mode=desc["mode"], gap=desc["gap"], opkind=desc["opkind"], batch=list(bs), dtype=desc["dtype"])
             obs.count("first_order_compared")
             obs.note(first_order_relerr=worst)
-            obs.nontrivial = ok_reach and nz
+            obs.nontrivial = ok_reach and (nz or lc == "stationary")
             if desc.get("order2") and worst <= tol1:
                 # second order: differentiate a random contraction of the first-order gradients again
                 R = [torch.randn(g.shape, dtype=g.dtype, generator=tgen) for g in g1]
                 try:
                     s2 = sum((g * Ri.conj()).sum().real for g, Ri in zip(g1, R))
-                    g2 = torch.autograd.grad(s2, lv, allow_unused=True)
+                    if lc and not s2.requires_grad:
+                        # the first-order gradients came back without a graph: their derivative is identically zero for autograd
+                        g2 = [None] * len(lv)
+                    else:
+                        g2 = torch.autograd.grad(s2, lv, allow_unused=True)
                 except Exception as ex:
                     obs.exc_violation(_mech(desc, "second"), ex)
                     return
@@ -682,17 +869,30 @@ def _run_eig(desc, obs):
                 s2r = sum((g * Ri.conj()).sum().real for g, Ri in zip(r1, R))
                 r2 = torch.autograd.grad(s2r, lv)
                 worst2 = 0.0
+                nz2 = True
                 for nm, g, r in zip(names, g2, r2):
+                    nograph = ""
                     if g is None:
-                        obs.check(False, _mech(desc, "second:none"), "no second-order gradient reached leaf %s" % nm)
-                        continue
+                        if not lc:
+                            obs.check(False, _mech(desc, "second:none"), "no second-order gradient reached leaf %s" % nm)
+                            continue
+                        # loss classes: an absent second derivative is the zero tensor (it is what the caller gets)
+                        g, nograph = torch.zeros_like(r), " (autograd found NO graph from the first-order gradient to this leaf)"
                     err = _relerr(g.detach(), r.detach())
                     worst2 = max(worst2, err)
+                    nz2 = nz2 and float(r.detach().abs().max()) > 1e-8
                     _cmp(obs, err, tol2, _mech(desc, "second:d%s" % nm),
-                              "second-order gradient w.r.t. %s differs from the dense reference: rel. error %.3e (tol %.1e)" % (nm, err, tol2),
-                              n=n, k=k, mode=desc["mode"], gap=desc["gap"], opkind=desc["opkind"], batch=list(bs), dtype=desc["dtype"])
+                              "second-order gradient w.r.t. %s differs from the dense reference%s: rel. error %.3e (tol %.1e)" % (nm, nograph, err, tol2),
+                              n=n, k=k, mode=desc["mode"], gap=desc["gap"], opkind=desc["opkind"], batch=list(bs), dtype=desc["dtype"],
+                              **({"lossclass": lc, "lin": desc["lin"]} if lc else {}))
                 obs.count("second_order_compared")
                 obs.note(second_order_relerr=worst2)
+                if lc:
+                    obs.count("lossclass_%s_second_compared" % lc)
+                    if lc == "stationary":
+                        obs.nontrivial = ok_reach and nz2
+                    obs.note(first_order_reference_max=max(float(r.detach().abs().max()) for r in r1),
+                             second_order_reference_max=max(float(r.detach().abs().max()) for r in r2))
         else:
             # ---- finite differences of the independent forward along degeneracy-breaking directions
             nz = True
@@ -786,6 +986,14 @@ def _run_svd(desc, obs):
     bck = _bck_options(desc["bck"], mn)
     counter = {}
     proj = (not degen) or desc.get("loss") == "proj"
+    lc = desc.get("lossclass")
+    if lc and degen:
+        raise HarnessBug("loss classes are generated for separated singular values only")
+
+    def lossfn(U_, S_, Vh_):
+        if lc:
+            return _svd_loss2(U_, S_, Vh_, groups, cot, lc, desc["lin"])
+        return _svd_loss(U_, S_, Vh_, groups, cot, proj)
     kw = dict(fwd)
     if desc["method"] != "exacteig":
         kw["bck_options"] = bck
@@ -803,7 +1011,7 @@ def _run_svd(desc, obs):
                 obs.check(False, _mech(desc, "shape"), "svd returned shapes %s %s %s" % (tuple(U.shape), tuple(S.shape), tuple(Vh.shape)))
                 obs.nontrivial = True
                 return
-            loss = _svd_loss(U, S, Vh, groups, cot, proj)
+            loss = lossfn(U, S, Vh)
             g1, = torch.autograd.grad(loss, [PA], create_graph=bool(desc.get("order2")), allow_unused=True)
         except Exception as ex:
             if isinstance(ex, HarnessBug):
@@ -841,7 +1049,7 @@ def _run_svd(desc, obs):
         ok_reach = (sp.n["solve"] >= 1) if desc["method"] != "exacteig" else (sp.n["dense_bwd"] >= 1)
         obs.count("svd_cases_compared")
         if not degen:
-            lossr = _svd_loss(Ur, Sr, Vhr, groups, cot, proj)
+            lossr = lossfn(Ur, Sr, Vhr)
             r1, = torch.autograd.grad(lossr, [PA], create_graph=bool(desc.get("order2")))
             err = _relerr(g1.detach(), r1.detach())
             _cmp(obs, err, tol1, _mech(desc, "first:dPA"),
@@ -849,11 +1057,15 @@ def _run_svd(desc, obs):
                       m=m, n=n, k=k, mode=desc["mode"], gap=desc["gap"], opkind=desc["opkind"], batch=list(BA), dtype=desc["dtype"])
             obs.count("first_order_compared")
             obs.note(first_order_relerr=err)
-            obs.nontrivial = ok_reach and float(r1.detach().abs().max()) > 1e-8
+            obs.nontrivial = ok_reach and (float(r1.detach().abs().max()) > 1e-8 or lc == "stationary")
             if desc.get("order2") and err <= tol1:
                 R = torch.randn(g1.shape, dtype=g1.dtype, generator=tgen)
                 try:
-                    g2, = torch.autograd.grad((g1 * R.conj()).sum().real, [PA], allow_unused=True)
+                    s2 = (g1 * R.conj()).sum().real
+                    if lc and not s2.requires_grad:
+                        g2 = None
+                    else:
+                        g2, = torch.autograd.grad(s2, [PA], allow_unused=True)
                 except Exception as ex:
                     obs.exc_violation(_mech(desc, "second"), ex)
                     return
@@ -861,15 +1073,25 @@ def _run_svd(desc, obs):
                     obs.count("skipped_backward_warned_2nd")
                     return
                 r2, = torch.autograd.grad((r1 * R.conj()).sum().real, [PA])
+                nograph = ""
                 if g2 is None:
-                    obs.check(False, _mech(desc, "second:none"), "no second-order gradient reached the leaf of A")
-                    return
+                    if not lc:
+                        obs.check(False, _mech(desc, "second:none"), "no second-order gradient reached the leaf of A")
+                        return
+                    g2, nograph = torch.zeros_like(r2), " (autograd found NO graph from the first-order gradient to the leaf)"
                 err2 = _relerr(g2.detach(), r2.detach())
                 _cmp(obs, err2, tol2, _mech(desc, "second:dPA"),
-                          "second-order gradient w.r.t. A differs from the torch.linalg.svd reference: rel. error %.3e (tol %.1e)" % (err2, tol2),
-                          m=m, n=n, k=k, mode=desc["mode"], gap=desc["gap"], opkind=desc["opkind"], batch=list(BA), dtype=desc["dtype"])
+                          "second-order gradient w.r.t. A differs from the torch.linalg.svd reference%s: rel. error %.3e (tol %.1e)" % (nograph, err2, tol2),
+                          m=m, n=n, k=k, mode=desc["mode"], gap=desc["gap"], opkind=desc["opkind"], batch=list(BA), dtype=desc["dtype"],
+                          **({"lossclass": lc, "lin": desc["lin"]} if lc else {}))
                 obs.count("second_order_compared")
                 obs.note(second_order_relerr=err2)
+                if lc:
+                    obs.count("lossclass_%s_second_compared" % lc)
+                    obs.count("lossclass_%s_svd_second_compared" % lc)
+                    if lc == "stationary":
+                        obs.nontrivial = ok_reach and float(r2.detach().abs().max()) > 1e-8
+                    obs.note(first_order_reference_max=float(r1.detach().abs().max()), second_order_reference_max=float(r2.detach().abs().max()))
         else:
             nz, worst = True, 0.0
             for rep in range(3):
